@@ -236,7 +236,7 @@ func TestVerifC10Persist(t *testing.T) {
 		r.Executions++
 		distinct[fmt.Sprintf("%s|%s|%s|%d", res.endKeys, res.endModel, f, res.stoppedAt)] = struct{}{}
 		if len(res.findings) == 0 {
-			if at > 0 && len(hist) == depth && c10Varied(hist) && (r.Executions%7 == 0) && len(r.Samples) < 4 {
+			if at > 0 && len(hist) == depth && c10Varied(hist) && (r.Executions%7 == 0) && len(r.Samples) < 1 && shard < 2 {
 				r.Sample(map[string]any{"case": cs, "surviving_keys": res.endKeys, "model": res.endModel, "verdict": "ok"})
 			}
 		}
